@@ -142,6 +142,15 @@ def run(tier, seed):
         # in-process (worker pool, other models run before) vs fresh process
         jobs.append({"kind": "plain", "scenario": sc})
         pairs.append({"a": base, "b": len(jobs) - 1, "rule": "identity", "scenario": sc, "label": {"process": "pool-worker vs fresh", "cfg": c}})
+    # the same inputs spelled differently: defaults left out (the constructors' own literals) vs stated explicitly as values that went through JSON / pickle
+    imp = S("Wheat", "Loam", seed=seed + 60, gw={"water_table": "Y", "dates": ["2001/04/20"], "values": [1.3]}, iwc={"value": ["FC"]})
+    exp = dict(imp, iwc={"wc_type": "Prop", "method": "Layer", "depth_layer": [1], "value": ["FC"]},
+               gw={"water_table": "Y", "method": "Constant", "dates": ["2001/04/20"], "values": [1.3]})
+    ja = len(jobs); jobs.append({"kind": "plain", "scenario": imp}); presup[ja] = E.run_job_subprocess(jobs[ja], hashseed="0")
+    jb = len(jobs); jobs.append({"kind": "plain", "scenario": exp}); presup[jb] = E.run_job_subprocess(jobs[jb], hashseed="0")
+    jc = len(jobs); jobs.append({"kind": "plain", "scenario": exp})
+    pairs.append({"a": ja, "b": jb, "rule": "identity", "scenario": exp, "label": {"defaults": "implicit vs explicit (fresh processes)"}})
+    pairs.append({"a": ja, "b": jc, "rule": "identity", "scenario": exp, "label": {"defaults": "implicit (fresh process) vs explicit (pool worker)"}})
     return equivbase.equiv_check(PROP, tier, seed, jobs, pairs, presupplied=presup,
                                  rule_text="C10: TLC enumerates every interleaving of New/Step/Finish over two instances (spec/Histories.tla); sampled "
                                            "behaviours are replayed in one process and each instance is compared with its solo baseline; plus fresh "
